@@ -1,7 +1,241 @@
-//! mvh_cont — not built yet.
+//! mvh_cont — container formats: fe9 "pack" archives (C15), 3DS arc extraction (C16), animation-set files
+//! (C17) and asset binaries (C18).  For every format two directions:
+//!   <fmt>-replay <cases.ndjson> <out.ndjson>   cases printed by TLC (spec/MC_<X>.tla, Gen_<X>.cfg) replayed on mila
+//!   <fmt>-record <out.ndjson> <n> ...          seeded random values driven through mila, logged for Trace_<X>.tla
+//! This file only drives mila, projects what it returns and compares with what TLC printed; every expected
+//! value comes from the TLA+ specifications.
+use indexmap::IndexMap;
+use mila::{ASetFile, AssetBinary, AssetSpec, BinArchive, Endian};
+use mvh::proj;
 use mvh::util::*;
+use serde_json::{json, Value};
 
+// ------------------------------------------------------------------------------------------------ common
+fn opt_none() -> Value {
+    json!({"some": false, "v": []})
+}
+fn opt_to_json(s: &Option<String>) -> Value {
+    match s {
+        None => opt_none(),
+        Some(s) => match string_to_sjis(s) {
+            Some(b) => json!({"some": true, "v": bytes_to_json(&b)}),
+            None => json!({"some": true, "v": [], "unencodable": s}),
+        },
+    }
+}
+fn json_to_opt(v: &Value) -> Option<String> {
+    if v["some"].as_bool().unwrap() {
+        Some(sjis_to_string(&json_to_bytes(&v["v"])))
+    } else {
+        None
+    }
+}
+fn u(v: &Value) -> usize {
+    v.as_u64().expect("unsigned") as usize
+}
+
+/// Archive content as the specifications see it: the projection of mvh::proj with the four data bytes of
+/// every annotated cell (string / pointer) set to zero — after from_bytes those bytes hold file offsets of
+/// the text section, which are representation, not content.
+fn masked_projection(a: &BinArchive, endian: &str) -> Value {
+    let mut p = proj::project(a, endian);
+    let mut cells: Vec<usize> = Vec::new();
+    for key in ["text", "ptrs"] {
+        for e in p[key].as_array().unwrap() {
+            cells.push(u(&e[0]));
+        }
+    }
+    let data = p["data"].as_array_mut().unwrap();
+    for c in cells {
+        for k in 0..4 {
+            if c + k < data.len() {
+                data[c + k] = json!(0);
+            }
+        }
+    }
+    p
+}
+
+/// Sample of lossless Shift-JIS characters (1 byte, half-width kana, 2-byte incl. trail bytes 0x5C / 0x7C).
+const SJIS_CHARS: &[char] = &[
+    'a', 'Z', '0', '_', '.', ' ', '-', 'ｱ', 'ﾝ', 'あ', 'ん', 'ソ', '表', '能', '十', 'Ａ', '　', '漢', '字', '①',
+];
+fn random_name(rng: &mut Rng, max_chars: usize, allow_empty: bool) -> String {
+    loop {
+        let n = if allow_empty && rng.chance(1, 10) { 0 } else { rng.range(1, max_chars) };
+        let s: String = (0..n).map(|_| *rng.pick(SJIS_CHARS)).collect();
+        if sjis_lossless(&s) {
+            return s;
+        }
+    }
+}
+
+// ------------------------------------------------------------------------------------------------ C15 pack
+fn pack_value_to_map(v: &Value) -> Result<IndexMap<String, Vec<u8>>, String> {
+    let mut m = IndexMap::new();
+    for f in v.as_array().unwrap() {
+        let nb = json_to_bytes(&f[0]);
+        let name = sjis_to_string(&nb);
+        if string_to_sjis(&name).as_deref() != Some(&nb[..]) {
+            return Err(format!("name bytes {:?} are not a lossless Shift-JIS string", nb));
+        }
+        if m.insert(name, json_to_bytes(&f[1])).is_some() {
+            return Err("duplicate name".to_string());
+        }
+    }
+    Ok(m)
+}
+fn pack_map_to_value(m: &IndexMap<String, Vec<u8>>) -> Value {
+    Value::Array(
+        m.iter()
+            .map(|(k, b)| match string_to_sjis(k) {
+                Some(nb) => json!([bytes_to_json(&nb), bytes_to_json(b)]),
+                None => json!([{ "unencodable": k }, bytes_to_json(b)]),
+            })
+            .collect(),
+    )
+}
+/// parse -> {"ok":true,"v":[[name,body]..]} | {"ok":false,"v":[],"err":..} | {"panic":..}
+fn pack_parse(bytes: &[u8]) -> Value {
+    match catch(|| mila::fe9_arc::parse(bytes)) {
+        Ok(Ok(m)) => json!({"ok": true, "v": pack_map_to_value(&m)}),
+        Ok(Err(e)) => json!({"ok": false, "v": [], "err": e.to_string()}),
+        Err(p) => json!({ "panic": p }),
+    }
+}
+fn pack_serialize(m: &IndexMap<String, Vec<u8>>) -> Result<Vec<u8>, Value> {
+    match catch(|| mila::fe9_arc::serialize(m)) {
+        Ok(Ok(b)) => Ok(b),
+        Ok(Err(e)) => Err(json!({"ok": false, "err": e.to_string()})),
+        Err(p) => Err(json!({ "panic": p })),
+    }
+}
+
+fn pack_replay(cases_path: &str, out_path: &str) {
+    let cases = read_ndjson(cases_path);
+    let mut out = NdWriter::create(out_path);
+    let (mut n, mut bad, mut unbuildable, mut images) = (0u64, 0u64, 0u64, 0u64);
+    for (i, c) in cases.iter().enumerate() {
+        n += 1;
+        let map = match pack_value_to_map(&c["v"]) {
+            Ok(m) => m,
+            Err(e) => {
+                unbuildable += 1;
+                out.put(&json!({"kind": "unbuildable", "i": i, "why": e}));
+                continue;
+            }
+        };
+        let expect = json!({"ok": true, "v": c["v"]});
+        // builder: byte-exact against CanonPack(v)
+        match pack_serialize(&map) {
+            Ok(b) => {
+                if bytes_to_json(&b) != c["canon"] {
+                    bad += 1;
+                    out.put(&json!({"kind": "mismatch", "what": "serialize", "i": i, "v": c["v"], "expected": c["canon"], "got": bytes_to_json(&b)}));
+                }
+                let back = pack_parse(&b);
+                if back != expect {
+                    bad += 1;
+                    out.put(&json!({"kind": "mismatch", "what": "parse-own-image", "i": i, "v": c["v"], "image": bytes_to_json(&b), "got": back}));
+                }
+            }
+            Err(e) => {
+                bad += 1;
+                out.put(&json!({"kind": "mismatch", "what": "serialize", "i": i, "v": c["v"], "expected": c["canon"], "got": e}));
+            }
+        }
+        // reader: the canonical image and every conforming re-arrangement
+        let mut imgs: Vec<(&str, usize, &Value)> = vec![("parse-canon", 0, &c["canon"])];
+        for (k, l) in c["layouts"].as_array().unwrap().iter().enumerate() {
+            imgs.push(("parse-layout", k, l));
+        }
+        for (what, k, img) in imgs {
+            images += 1;
+            let got = pack_parse(&json_to_bytes(img));
+            if got != expect {
+                bad += 1;
+                out.put(&json!({"kind": "mismatch", "what": what, "i": i, "layout": k, "v": c["v"], "image": img, "got": got}));
+            }
+        }
+    }
+    out.put(&json!({"kind": "summary", "cases": n, "images": images, "mismatches": bad, "unbuildable": unbuildable}));
+    out.finish();
+}
+
+fn pack_random_len(rng: &mut Rng) -> usize {
+    match rng.below(10) {
+        0 => 0,
+        1..=6 => {
+            let k = rng.range(0, 6) * 32;
+            let d = *rng.pick(&[-1i64, 0, 1, 0, 31, -31]);
+            (k as i64 + d).max(0) as usize
+        }
+        _ => rng.range(1, 300),
+    }
+}
+fn pack_event(map: &IndexMap<String, Vec<u8>>, mode: &str) -> Value {
+    let value = pack_map_to_value(map);
+    match pack_serialize(map) {
+        Ok(b) => {
+            let parsed = pack_parse(&b);
+            json!({"mode": mode, "value": value, "ser": "ok", "bytes": bytes_to_json(&b), "parsed": parsed})
+        }
+        Err(e) => json!({"mode": mode, "value": value, "ser": e.to_string(), "bytes": [], "parsed": {"ok": false, "v": []}}),
+    }
+}
+fn pack_record(out_path: &str, runs: usize, max_files: usize, big: bool) {
+    let mut rng = Rng::new(seed_from_env());
+    let mut out = NdWriter::create(out_path);
+    for run in 0..runs {
+        let n = match run {
+            0 => 0,
+            1 => max_files,
+            _ => {
+                if rng.chance(1, 4) {
+                    rng.range(0, max_files)
+                } else {
+                    rng.range(0, 12.min(max_files))
+                }
+            }
+        };
+        let mut map: IndexMap<String, Vec<u8>> = IndexMap::new();
+        while map.len() < n {
+            let mut name = random_name(&mut rng, 6, true);
+            if map.contains_key(&name) {
+                name.push_str(&format!("{}", map.len()));
+            }
+            if map.contains_key(&name) {
+                continue;
+            }
+            let len = pack_random_len(&mut rng);
+            let body = if rng.chance(1, 6) { vec![0u8; len] } else { rng.bytes(len) };
+            map.insert(name, body);
+        }
+        out.put(&pack_event(&map, "full"));
+    }
+    if big {
+        // the statement's upper limit: 65 535 (empty) files
+        let mut map: IndexMap<String, Vec<u8>> = IndexMap::new();
+        for i in 0..65535usize {
+            let name = if i % 1000 == 7 { format!("あ{}", i) } else { format!("f{}", i) };
+            map.insert(name, Vec::new());
+        }
+        out.put(&pack_event(&map, "full"));
+    }
+    out.finish();
+}
+
+// ------------------------------------------------------------------------------------------------ main
 fn main() {
     install_panic_hook();
-    usage("mvh_cont: not implemented yet");
+    let args: Vec<String> = std::env::args().skip(1).collect();
+    let a: Vec<&str> = args.iter().map(|s| s.as_str()).collect();
+    match a.as_slice() {
+        ["pack-replay", cases, out] => pack_replay(cases, out),
+        ["pack-record", out, runs, max_files] => pack_record(out, runs.parse().unwrap(), max_files.parse().unwrap(), false),
+        ["pack-record", out, runs, max_files, "big"] => pack_record(out, runs.parse().unwrap(), max_files.parse().unwrap(), true),
+        _ => usage(
+            "mvh_cont pack-replay <cases> <out> | pack-record <out> <runs> <max_files> [big]",
+        ),
+    }
 }
